@@ -1,6 +1,9 @@
 """C17 — runtime objects: all-or-nothing, faithful creation; values cannot inject config.  DESIGN.md §2 C17."""
 import re
+import decimal
 from decimal import Decimal
+
+decimal.getcontext().prec = 3000
 
 from vlib import core, runner
 from .base import StdCheck
